@@ -60,3 +60,16 @@ Theorem C02_multilinear_pst_one_value :
     ml_check vk c z v1 pf = Ok true -> ml_check vk c z v2 pf = Ok true -> v1 = v2.
 Proof. exact @ml_check_one_value. Qed.
 Print Assumptions C02_multilinear_pst_one_value.
+
+(* Sonic: with the same commitments, point, proof and challenges two value vectors are both accepted only if their
+   challenge-weighted sums coincide (a single false value changes the sum unless its challenge is zero) *)
+From PC Require Import Schemes.Sonic Proofs.SonicFacts.
+Theorem C02_sonic_one_combined_value :
+  forall (FO : FieldOps) (FL : FieldLaws FO) vk cs z vs1 vs2 pf chal r1 r2,
+    vk_g (svk_vk vk) <> 0 -> vk_h (svk_vk vk) <> 0 ->
+    length vs1 = length cs -> length vs2 = length cs -> (length cs < length chal)%nat ->
+    (exists sps, Forall2 (fun cb sp => shift_power vk (snd cb) = Ok sp) cs sps) ->
+    s_check vk cs z vs1 pf chal = Ok (true, r1) -> s_check vk cs z vs2 pf chal = Ok (true, r2) ->
+    wval vs1 (hd 0 chal) (tl chal) 0 = wval vs2 (hd 0 chal) (tl chal) 0.
+Proof. exact @sonic_one_combined_value. Qed.
+Print Assumptions C02_sonic_one_combined_value.
